@@ -26,7 +26,7 @@ type c04Shape struct {
 	auth    security.SecurityLevel
 	methods []security.AuthMethod
 	resumed bool
-	noReply bool // resumed by a scripted requester that asks for no reply: cleartext in ONE direction only
+	noReply bool                   // resumed by a scripted requester that asks for no reply: cleartext in ONE direction only
 	encC    security.SecurityLevel // the two sides' encryption levels; "" = REQUIRED
 	encS    security.SecurityLevel
 	pad     int // > 0: both endpoints carry a Subsystem name of that many bytes, so each security ad is just below the 4 KiB an ad may have and each direction's cleartext exceeds it
